@@ -341,7 +341,14 @@ def match_sequence_type(value: Any,
                     return False
             elif type_name != 'xs:anyType':  # every type is derived from xs:anyType
                 try:
-                    if not is_instance(v.typed_value, type_name, parser):
+                    if isinstance(v, ElementNode) and v.nilled:
+                        # a nilled element has no typed value: compare the type annotation
+                        qname = get_expanded_name(type_name, parser.namespaces) if parser else type_name
+                        xsd_type = parser.schema.get_type(qname) if parser and parser.schema else None
+                        if v.type_name != qname and (xsd_type is None or not getattr(
+                                v.xsd_type, 'is_derived', lambda x: False)(xsd_type)):
+                            return False
+                    elif not is_instance(v.typed_value, type_name, parser):
                         return False
                 except (KeyError, ValueError):
                     raise xpath_error('XPST0051')
